@@ -81,8 +81,8 @@ fn derive(s1: &[u32], d: &Derive, l: usize) -> Vec<u32> {
     s2
 }
 
-fn strategy(max_len: usize, max_l: usize, trials: u64) -> impl Strategy<Value = Case> {
-    (prop::sample::select(vec![1u32, 2, 4, 7, 32, 128]), 1usize..=max_l, any::<bool>(), 1u32..9, prop_oneof![3 => Just(0u8), 1 => Just(1u8), 1 => Just(2u8)]).prop_flat_map(move |(m, l, wy, alpha, family)| {
+fn strategy(max_len: usize, min_l: usize, max_l: usize, trials: u64) -> impl Strategy<Value = Case> {
+    (prop::sample::select(vec![1u32, 2, 4, 7, 32, 128]), min_l..=max_l, any::<bool>(), 1u32..9, prop_oneof![3 => Just(0u8), 1 => Just(1u8), 1 => Just(2u8)]).prop_flat_map(move |(m, l, wy, alpha, family)| {
         let hi = max_len.max(l + 1);
         let runs = (prop::collection::vec((0u32..alpha, 1usize..4), 1..6)).prop_map(|rs| rs.into_iter().flat_map(|(s, k)| std::iter::repeat(s).take(k)).collect::<Vec<u32>>());
         let base = prop_oneof![3 => prop::collection::vec(0u32..alpha, l..=hi), 1 => runs].prop_map(move |mut v: Vec<u32>| {
@@ -263,13 +263,16 @@ fn runs_strategy(trials: u64) -> impl Strategy<Value = RunsCase> {
 }
 
 pub fn run(ctx: &Ctx) {
-    ctx.set_rule("proptest generates (m in {1,2,4,7,32,128}, l, hasher FNV/WyHash, a base sequence over 1..8 symbols (random or built from runs) and a second sequence derived from it: identical | rotated | one substitution | deletion | insertion | disjoint alphabet | common prefix | independent | reversed, a trial seed). \
+    ctx.set_rule("proptest generates (m in {1,2,4,7,32,128}, l (sub-check collision: 1..5 (12); sub-check large-l: 6..15, the largest value the constructor accepts, on sequences of up to 18 (22) elements), hasher FNV/WyHash, a base sequence over 1..8 symbols (random or built from runs) and a second sequence derived from it: identical | rotated | one substitution | deletion | insertion | disjoint alphabet | common prefix | independent | reversed, a trial seed). \
         Per trial the symbols are relabelled with fresh random u64 labels and one instance hashes both sequences; statistic = fraction of equal positions. Oracle: exact collision probability of the order-min-hash definition by memoised recursion over the next lowest-ranked relevant (element, occurrence) pair \
         (Monte-Carlo of the definition beyond 3e6 states, its error added); decision: Bernstein / empirical-Bernstein bound with per-comparison delta 1e-14, failures re-tested on an independent seed with 4x trials. Non-trivial = 0 < p < 1. Distinct = distinct serialised case.");
     ctx.assume("positions of one signature are correlated, so only the generic variance bound p(1-p) and the empirical variance are used");
     super::run_fixed_tier(ctx, replay);
     let (cases, max_len, max_l, trials) = ctx.tier.pick((192, 14, 5, 12_000), (2400, 30, 12, 40_000));
-    ctx.drive("collision", cases, 16, 24, || strategy(max_len, max_l, trials), eval);
+    ctx.drive("collision", cases, 16, 24, || strategy(max_len, 1, max_l, trials), eval);
+    // long selections: l from 6 to 15 (the constructor requires l < 16) on sequences of up to 18 (22) elements
+    let (cases, max_len, max_l, trials) = ctx.tier.pick((48, 18, 15, 8_000), (480, 22, 15, 30_000));
+    ctx.drive("large-l", cases, 16, 24, || strategy(max_len, 6, max_l, trials), eval);
     // very long runs of one element: occurrence numbers beyond 2^16; the selected occurrence must be uniform
     let (cases, trials) = ctx.tier.pick((6, 260), (64, 1000));
     ctx.drive("long-runs", cases, 6, 2, move || runs_strategy(trials), eval_runs);
